@@ -392,13 +392,10 @@ def diff_single_outputs(a, b, path="/cells/*/outputs/*", config=None):
     if a.output_type in ("execute_result", "display_data"):
         di = MappingDiffBuilder()
 
-        # Separate data from output during diffing:
-        tmp_data = a.pop('data')
-        a_conj = copy.deepcopy(a)  # Output without data
-        a.data = tmp_data          # Restore output
-        tmp_data = b.pop('data')
-        b_conj = copy.deepcopy(b)
-        b.data = tmp_data
+        # Separate data from output during diffing (on copies: the outputs
+        # passed in are never touched, also if copying or diffing fails):
+        a_conj = type(a)((k, copy.deepcopy(v)) for k, v in a.items() if k != 'data')
+        b_conj = type(b)((k, copy.deepcopy(v)) for k, v in b.items() if k != 'data')
         # Only diff outputs without data (pass on path and config, so that
         # e.g. ignoring the outputs' metadata has an effect):
         dd_conj = diff(a_conj, b_conj, path=path, config=config)
